@@ -1,16 +1,18 @@
 #!/bin/bash
-# Apply a seeded change to /repo, run one or more checks against it, undo the change.
+# Apply a seeded change to a scratch worktree of /repo (never to /repo itself), run checks against it, remove the worktree.
 # usage: ./mutest.sh <patch.diff> <ID> [<ID>...]   (VERIF_SEED / VERIF_TIER respected)
 set -u
-patch=$1; shift
-if [ -n "$(git -C /repo status --porcelain)" ]; then echo "/repo is not clean"; exit 3; fi
-git -C /repo apply "$patch" || { echo "patch does not apply"; exit 3; }
-trap 'git -C /repo checkout -- . ; git -C /repo clean -fdq' EXIT
+patch=$(readlink -f "$1"); shift
+wt=$(mktemp -d /tmp/mutest-XXXXXX)
+git -C /repo worktree add -q --detach "$wt" HEAD || exit 3
+trap 'git -C /repo worktree remove --force "$wt" 2>/dev/null; rm -rf "$wt"' EXIT
+git -C "$wt" apply "$patch" || { echo "patch does not apply"; exit 3; }
 rc=0
 for id in "$@"; do
-  out=$(cd /verif && timeout 1500 ./run check "$id" "${VERIF_TIER:-quick}" 2>&1)
+  # separate evidence/log dirs are not needed: the driver writes per-ID files; do not run two mutests of the same ID at once
+  out=$(cd /verif && VERIF_REPO="$wt" timeout 1500 ./run check "$id" "${VERIF_TIER:-quick}" 2>&1)
   r=$?
-  echo "$out" | grep -E "^(VIOLATION|KNOWN-FINDING|BUILD-FAILED|INCONCLUSIVE)" | cut -c1-220 | sort | uniq -c | sort -rn | head -8
+  echo "$out" | grep -E "^(VIOLATION|KNOWN-FINDING|BUILD-FAILED|INCONCLUSIVE)" | cut -c1-220 | sed 's/replay=[^ ]*//' | sort | uniq -c | sort -rn | head -8
   echo "== $id exit=$r"
   [ $r -ne 0 ] && rc=1
 done
